@@ -142,7 +142,6 @@ func init() {
 		// the account whose role an AddAccount / RemoveAccount of iteration k is about
 		pay := func(k int) (admintypes.AdminType, sdk.AccAddress) { return roles[k%len(roles)], addrs[(k/len(roles))%NACC] }
 		payS := func(k int) (string, string) { r, a := pay(k); return r.String(), a.String() }
-		valAddr := sdk.ValAddress(addrs[12])
 
 		cases := []handlerCase{
 			{module: "admin", name: "AddAccount", payload: payS, call: func(c sdk.Context, s string, k int) error {
@@ -266,7 +265,7 @@ func init() {
 				if k%2 == 1 {
 					op = "remove"
 				}
-				_, err := ethSrv.UpdateWhiteListValidator(g(c), &ethtypes.MsgUpdateWhiteListValidator{CosmosSender: s, Validator: valAddr.String(), OperationType: op})
+				_, err := ethSrv.UpdateWhiteListValidator(g(c), &ethtypes.MsgUpdateWhiteListValidator{CosmosSender: s, Validator: sdk.ValAddress(addrs[(k/2)%NACC]).String(), OperationType: op})
 				return err
 			}},
 			{module: "ethbridge", name: "UpdateCethReceiverAccount", call: func(c sdk.Context, s string, k int) error {
@@ -274,7 +273,7 @@ func init() {
 				return err
 			}},
 			{module: "ethbridge", name: "RescueCeth", call: func(c sdk.Context, s string, k int) error {
-				_, err := ethSrv.RescueCeth(g(c), &ethtypes.MsgRescueCeth{CosmosSender: s, CosmosReceiver: addrs[13].String(), CethAmount: sdk.NewInt(1)})
+				_, err := ethSrv.RescueCeth(g(c), &ethtypes.MsgRescueCeth{CosmosSender: s, CosmosReceiver: addrs[k%NACC].String(), CethAmount: sdk.NewInt(1)})
 				return err
 			}},
 		}
